@@ -86,3 +86,119 @@ Fixpoint run_ops (d : adata) (ops : list aop) : list (list N) :=
   | OPop :: r => match apop d with Some (w, d') => [1; w] :: run_ops d' r | None => [0] :: run_ops d r end
   | OLen :: r => [N.of_nat (alen d)] :: run_ops d r
   end.
+
+(* ================================================================== opcode level
+   The array / vec opcodes of runtime/src/vm/dispatch/ops/arrays.inc on their register operands:
+   the container word has been resolved to a heap object (hobj), the index is a raw 64-bit word.
+     ArrayLoad{I,F,B,P} 135-138, ArrayGet* 139-142, ArrayStore* 143-146,
+     VecPush* 153-156, VecPop* 157-160, VecLoad{I,F,B} 164-166, VecLoadP 167 (the generic index
+     load: vec, array or string), VecGet* 168-171, VecStore{I,F,B} 172-174, VecStoreP 175 (generic
+     index store: vec or array).
+   The type suffix of an opcode does not appear in its semantics: only the container kinds it accepts. *)
+Inductive hobj := HArray (d : adata) | HVec (d : adata) | HString (len : nat) | HOther | HNone.
+Inductive aerr := AEIndex | AEType | AEHandle.
+(* AOk r o': r = value written to the destination register (None: no destination), o' = the
+   container afterwards; AChar i: the i-th character of the string as a fresh string *)
+Inductive ares := AOk (r : option N) (o' : hobj) | AChar (i : nat) | AErr (e : aerr).
+
+(* reg.as_int().unwrap_or(-1): every non-int word is the index -1 *)
+Definition idx_of (w : N) : Z := match as_int w with Some z => z | None => (-1)%Z end.
+
+Definition dget (d : adata) (i : Z) : option N :=
+  if (i <? Z.of_nat (alen d))%Z then aget d (Z.to_nat i) else None.
+Definition dset (d : adata) (i : Z) (w : N) : option adata :=
+  if (i <? Z.of_nat (alen d))%Z then aset d (Z.to_nat i) w else None.
+
+(* which containers an arm accepts *)
+Inductive cwant := WArray | WVec | WAny.
+Definition want_array (c : cwant) : bool := match c with WVec => false | _ => true end.
+Definition want_vec (c : cwant) : bool := match c with WArray => false | _ => true end.
+
+Definition op_load (c : cwant) (o : hobj) (iw : N) : ares :=
+  let i := idx_of iw in
+  if (i <? 0)%Z then AErr AEIndex
+  else match o with
+       | HNone => AErr AEHandle
+       | HArray d => if want_array c then match dget d i with Some w => AOk (Some w) o | None => AErr AEIndex end
+                     else AErr AEType
+       | HVec d => if want_vec c then match dget d i with Some w => AOk (Some w) o | None => AErr AEIndex end
+                   else AErr AEType
+       | HString n => match c with
+                      | WAny => if (i <? Z.of_nat n)%Z then AChar (Z.to_nat i) else AErr AEIndex
+                      | _ => AErr AEType
+                      end
+       | HOther => AErr AEType
+       end.
+
+(* the lenient Get forms: null instead of any error *)
+Definition op_get (c : cwant) (o : hobj) (iw : N) : ares :=
+  let i := idx_of iw in
+  if (i <? 0)%Z then AOk (Some v_null) o
+  else match o with
+       | HArray d => if want_array c then AOk (Some (match dget d i with Some w => w | None => v_null end)) o
+                     else AOk (Some v_null) o
+       | HVec d => if want_vec c then AOk (Some (match dget d i with Some w => w | None => v_null end)) o
+                   else AOk (Some v_null) o
+       | _ => AOk (Some v_null) o
+       end.
+
+Definition op_store (c : cwant) (o : hobj) (iw v : N) : ares :=
+  let i := idx_of iw in
+  if (i <? 0)%Z then AErr AEIndex
+  else match o with
+       | HNone => AErr AEHandle
+       | HArray d => if want_array c then match dset d i v with Some d' => AOk None (HArray d') | None => AErr AEIndex end
+                     else AErr AEType
+       | HVec d => if want_vec c then match dset d i v with Some d' => AOk None (HVec d') | None => AErr AEIndex end
+                   else AErr AEType
+       | _ => AErr AEType
+       end.
+
+Definition op_push (o : hobj) (v : N) : ares :=
+  match o with
+  | HNone => AErr AEHandle
+  | HVec d => match apush d v with Some d' => AOk None (HVec d') | None => AErr AEType end
+  | _ => AErr AEType
+  end.
+
+Definition op_pop (o : hobj) : ares :=
+  match o with
+  | HNone => AErr AEHandle
+  | HVec d => match apop d with Some (w, d') => AOk (Some w) (HVec d') | None => AOk (Some v_null) o end
+  | _ => AErr AEType
+  end.
+
+(* dispatch on the opcode number *)
+Definition array_op (opc : N) (o : hobj) (iw v : N) : option ares :=
+  if (135 <=? opc) && (opc <=? 138) then Some (op_load WArray o iw)
+  else if (139 <=? opc) && (opc <=? 142) then Some (op_get WArray o iw)
+  else if (143 <=? opc) && (opc <=? 146) then Some (op_store WArray o iw v)
+  else if (153 <=? opc) && (opc <=? 156) then Some (op_push o v)
+  else if (157 <=? opc) && (opc <=? 160) then Some (op_pop o)
+  else if (164 <=? opc) && (opc <=? 166) then Some (op_load WVec o iw)
+  else if opc =? 167 then Some (op_load WAny o iw)
+  else if (168 <=? opc) && (opc <=? 171) then Some (op_get WVec o iw)
+  else if (172 <=? opc) && (opc <=? 174) then Some (op_store WVec o iw v)
+  else if opc =? 175 then Some (op_store WAny o iw v)
+  else None.
+
+(* observation for the contract tie: outcome code list and the container's contents afterwards *)
+Definition contents (d : adata) : list N :=
+  match d with
+  | DInts l => map v_int l | DFloats l => map v_float l | DBools l => map v_bool l | DObjects l => l
+  end.
+Definition hobj_contents (o : hobj) : list N :=
+  match o with HArray d | HVec d => contents d | _ => [] end.
+(* [0; w] value, [1] no value, [2; i] char, [3; k] error k (0 index, 1 type, 2 handle) *)
+Definition ares_obs (o : hobj) (r : ares) : list N * list N :=
+  match r with
+  | AOk (Some w) o' => ([0; w], hobj_contents o')
+  | AOk None o' => ([1], hobj_contents o')
+  | AChar i => ([2; N.of_nat i], hobj_contents o)
+  | AErr AEIndex => ([3; 0], hobj_contents o)
+  | AErr AEType => ([3; 1], hobj_contents o)
+  | AErr AEHandle => ([3; 2], hobj_contents o)
+  end.
+(* build a container from a kind and a list of words pushed in order (what the harness does) *)
+Fixpoint push_all (d : adata) (ws : list N) : adata :=
+  match ws with [] => d | w :: r => match apush d w with Some d' => push_all d' r | None => push_all d r end end.
